@@ -289,6 +289,15 @@ def build():
                     '''old(self).case matches Case::ImmediateResponse { res: Some(p) } ==> (r matches Poll::Ready(Ok(out)) && out.status == p.status && out.headers == p.headers && out.body.of@ == empty_body())'''),
          ])
 
+    # the wiring: GrpcWebLayer::layer installs a GrpcWebService around the service
+    L = 'tonic-web/src/layer.rs'
+    u.item(L, 'struct', 'GrpcWebLayer')
+    u._emit('impl<S> GrpcWebService<S> {'); u._open_header = 'impl<S> GrpcWebService<S> {'
+    u.fn(S, 'new', within='impl<S> GrpcWebService<S>', ensures=[Clause('W1_wraps_the_service', 'r.inner == inner')])
+    u.close('}')
+    u.fn(L, 'layer', within='impl<S> Layer<S> for GrpcWebLayer', header='impl GrpcWebLayer {', close=True,
+         sig_edits=[lambda t: t.sub_code('R9', r'Self::Service', 'GrpcWebService<S>'), lambda t: t.sub_code('R12', r'fn layer\(', 'fn layer<S>(')],
+         ensures=[Clause('W2_the_layer_installs_the_translation_around_the_service', 'r.inner == inner')])
     hdr = 'impl<S> GrpcWebService<S> {'
     mg = [lambda t: t.sub_code('R9', r'Self::Future', 'ResponseFuture<S::Future>'),
           lambda t: t.sub_code('R12', r'fn call\(', 'fn call<ReqBody>('),
